@@ -125,8 +125,19 @@ fn sibling_kinds(k: Kind) -> Vec<Kind> {
 
 fn edit_here(t: &TD, rng: &mut Rng) -> Option<TD> {
     let mut c = t.clone();
-    let choice = rng.below(6);
+    let choice = rng.below(7);
     match (choice, t.k.shape()) {
+        (6, Shape::BinOrd) | (6, Shape::BinSym) => {
+            // another copula / connecter of the same group AND the operands swapped (mirrored twins such
+            // as `<A =/> B>` / `<B =\> A>` are different terms)
+            let sibs = sibling_kinds(t.k);
+            if sibs.is_empty() || t.kids.len() != 2 {
+                return None;
+            }
+            c.k = *rng.pick(&sibs);
+            c.kids.swap(0, 1);
+            Some(c)
+        }
         (0, Shape::AtomNamed) => {
             c.name.push('q');
             Some(c)
@@ -250,6 +261,68 @@ fn slot_reuse_failure(seq: &[TD], hash: bool) -> Option<String> {
     }
 }
 
+/// history on one thread: shallow terms are compared / hashed, then a term with `depth` nested
+/// unordered groups (or a mixed spine) is built, hashed, compared and dropped, then equal copies of
+/// the shallow terms must still compare / hash the way they did
+fn deep_history_failure(depth: usize, variant: usize, hash: bool) -> Option<String> {
+    on_big_stack(move || -> Option<String> {
+        let shallow = [
+            TD::comp(Kind::SetExt, vec![TD::word("A"), TD::word("B")]),
+            TD::bin(Kind::Sim, TD::word("A"), TD::comp(Kind::Conj, vec![TD::word("B"), TD::word("C")])),
+            TD::comp(Kind::Product, vec![TD::comp(Kind::SetInt, vec![TD::word("x"), TD::word("y"), TD::word("z")])]),
+        ];
+        let before: Vec<Term> = shallow.iter().map(|d| d.build()).collect();
+        let h_before: Vec<u64> = before.iter().map(|t| hash_with(t, DefaultHasher::new())).collect();
+        let mut set: HashSet<Term> = before.iter().cloned().collect();
+        // the deep term: all unordered groups (variant 7), or the rotating spine of `deep_td`
+        let deep_desc = if variant == 7 {
+            let mut t = TD::word("core");
+            for i in 0..depth {
+                t = if i % 2 == 0 { TD::comp(Kind::SetExt, vec![t]) } else { TD::comp(Kind::Conj, vec![t, TD::word("r")]) };
+            }
+            t
+        } else {
+            deep_td(depth, variant)
+        };
+        let r = observe(|| {
+            let d1 = deep_desc.build();
+            let d2 = deep_desc.build();
+            let same = d1 == d2;
+            let (x, y) = (hash_with(&d1, DefaultHasher::new()), hash_with(&d2, DefaultHasher::new()));
+            set.insert(d1);
+            let found = set.contains(&d2);
+            (same, x == y, found)
+        });
+        match r {
+            Obs::Ret((same, hsame, found)) => {
+                if !hash && !same {
+                    return Some(format!("two builds of a term nested {} deep compare unequal", depth));
+                }
+                if hash && (!hsame || !found) {
+                    return Some(format!("two builds of a term nested {} deep hash differently / are not found in a HashSet", depth));
+                }
+            }
+            Obs::Panic(p) => return Some(format!("panicked on a term nested {} deep: {}", depth, p)),
+        }
+        for (i, d) in shallow.iter().enumerate() {
+            let again = d.build();
+            if !hash && again != before[i] {
+                return Some(format!("after handling a term nested {} deep, an equal copy of {} compares unequal to the one built before", depth, d.canon()));
+            }
+            if hash {
+                if hash_with(&again, DefaultHasher::new()) != h_before[i] {
+                    return Some(format!("after handling a term nested {} deep, {} hashes differently than before", depth, d.canon()));
+                }
+                if !set.contains(&again) {
+                    return Some(format!("after handling a term nested {} deep, {} is no longer found in the HashSet it was inserted into", depth, d.canon()));
+                }
+            }
+        }
+        None
+    })
+    .unwrap_or_else(|| Some(format!("the thread handling a term nested {} deep died", depth)))
+}
+
 /// Returns a description of the first discrepancy for a pair expected equal (or not)
 fn check_pair(a: &Term, b: &Term, expect_equal: bool, hash: bool) -> Option<String> {
     let r = observe(|| {
@@ -308,9 +381,26 @@ fn check_pair(a: &Term, b: &Term, expect_equal: bool, hash: bool) -> Option<Stri
             let mut map = HashMap::new();
             map.insert(a.clone(), 1u8);
             let got = map.get(b).copied();
-            (h1, h2, h3, contains, size, got)
+            // the term as an element of a slice-like or composite key (std hashes those through
+            // `Hash::hash_slice` / the element impls)
+            let hv = |t: &Term| {
+                let v = vec![Term::new_word("k"), t.clone()];
+                let mut h = DefaultHasher::new();
+                v.hash(&mut h);
+                [t.clone()].hash(&mut h);
+                v[..].hash(&mut h);
+                (t.clone(), 7u8).hash(&mut h);
+                Some(t.clone()).hash(&mut h);
+                Box::new(t.clone()).hash(&mut h);
+                h.finish()
+            };
+            let composite = (hv(a), hv(b));
+            let mut vset: HashSet<Vec<Term>> = HashSet::new();
+            vset.insert(vec![a.clone()]);
+            let vcontains = vset.contains(&vec![b.clone()]);
+            (h1, h2, h3, contains, size, got, composite, vcontains)
         });
-        let (h1, h2, h3, contains, size, got) = match r {
+        let (h1, h2, h3, contains, size, got, composite, vcontains) = match r {
             Obs::Ret(x) => x,
             Obs::Panic(p) => return Some(format!("hashing panicked: {}", p)),
         };
@@ -331,6 +421,12 @@ fn check_pair(a: &Term, b: &Term, expect_equal: bool, hash: bool) -> Option<Stri
         }
         if got != Some(1) {
             return Some("HashMap{a:1}.get(b) is None for equal terms".into());
+        }
+        if composite.0 != composite.1 {
+            return Some("equal terms hash differently as elements of a Vec / array / slice / tuple / Option / Box key".into());
+        }
+        if !vcontains {
+            return Some("HashSet{vec![a]}.contains(&vec![b]) is false for equal terms".into());
         }
         None
     }
@@ -555,6 +651,81 @@ pub fn run(ctx: &mut Ctx, hash: bool) {
         }
     }
 
+    // (0b+) extreme arities: an unordered compound of 256..1000 members nested in a set, in a symmetric
+    // statement and in a product, built twice with the members inserted in opposite orders; and every
+    // pair of statement kinds over the same / mirrored operands
+    for k in SET_KINDS {
+        for n in [256usize, 300, 1000] {
+            idx += 1;
+            if !ctx.mine(idx) {
+                continue;
+            }
+            let fwd: Vec<TD> = (0..n).map(|i| TD::word(&format!("m{}", i))).collect();
+            let mut rev = fwd.clone();
+            rev.reverse();
+            let (a, b) = (TD::comp(k, fwd), TD::comp(k, rev));
+            for wrap in 0..3 {
+                let (wa, wb) = match wrap {
+                    0 => (TD::comp(Kind::SetExt, vec![a.clone(), TD::word("z")]), TD::comp(Kind::SetExt, vec![TD::word("z"), b.clone()])),
+                    1 => (TD::bin(Kind::Sim, a.clone(), TD::word("z")), TD::bin(Kind::Sim, TD::word("z"), b.clone())),
+                    _ => (TD::comp(Kind::Product, vec![a.clone(), TD::word("z")]), TD::comp(Kind::Product, vec![b.clone(), TD::word("z")])),
+                };
+                ctx.report.eval();
+                ctx.report.bump("family.extreme-arity");
+                ctx.report.nontrivial(&format!("wide|{}|{}|{}", k.tag(), n, wrap));
+                if let Some(w) = pair_failure(&wa, &wb, How::Ctor, How::Ctor, hash, 2, &mut rng) {
+                    ctx.report.violate(
+                        format!("{}|extreme-arity|{}|{}", if hash { "C07" } else { "C06" }, k.tag(), w),
+                        format!("{} for a {} of {} members built in two insertion orders (wrapper {})", w, k.tag(), n, wrap),
+                        J::obj().set("kind", "extreme-arity").set("k", k.tag()).set("n", n as u64).set("wrap", wrap as u64),
+                    );
+                }
+            }
+        }
+    }
+    {
+        let (x, y) = (TD::word("A"), TD::comp(Kind::SetExt, vec![TD::word("B"), TD::word("C")]));
+        let stmt: Vec<Kind> = BINORD_STATEMENT_KINDS.iter().chain(BINSYM_KINDS.iter()).chain(BINORD_COMPOUND_KINDS.iter()).copied().collect();
+        for k1 in &stmt {
+            for k2 in &stmt {
+                for mirrored in [false, true] {
+                    idx += 1;
+                    if !ctx.mine(idx) {
+                        continue;
+                    }
+                    let da = TD::bin(*k1, x.clone(), y.clone());
+                    let db = if mirrored { TD::bin(*k2, y.clone(), x.clone()) } else { TD::bin(*k2, x.clone(), y.clone()) };
+                    ctx.report.eval();
+                    ctx.report.bump("family.statement-kind-pairs");
+                    ctx.report.nontrivial(&format!("{}≟{}", da.canon(), db.canon()));
+                    if let Some(w) = pair_failure(&da, &db, How::Ctor, How::Ctor, hash, 2, &mut rng) {
+                        report_failure(ctx, &da, &db, How::Ctor, How::Ctor, hash, w, "statement-kind-pairs", &mut rng);
+                    }
+                }
+            }
+        }
+    }
+
+    // (0b++) a very deep term in the history of the thread
+    for depth in [129usize, 200, 300, 600] {
+        for variant in [0usize, 1, 4, 7] {
+            idx += 1;
+            if !ctx.mine(idx) {
+                continue;
+            }
+            ctx.report.eval();
+            ctx.report.bump("family.deep-term-in-the-history");
+            ctx.report.nontrivial(&format!("deep-history|{}|{}", depth, variant));
+            if let Some(w) = deep_history_failure(depth, variant, hash) {
+                ctx.report.violate(
+                    format!("{}|deep-history|{}|{}", if hash { "C07" } else { "C06" }, variant, w),
+                    w.clone(),
+                    J::obj().set("kind", "deep-history").set("depth", depth as u64).set("variant", variant as u64),
+                );
+            }
+        }
+    }
+
     // (0b'') values that replace one another in the same place: a term is hashed, then overwritten (same
     // variable, so the same address) by a different term of the same kind and size, which must hash and
     // compare like an independently built copy of itself that lives elsewhere
@@ -737,6 +908,17 @@ pub fn run(ctx: &mut Ctx, hash: bool) {
 }
 
 pub fn replay(ctx: &mut Ctx, d: &J, hash: bool) -> Option<()> {
+    if jstr(d, "kind").as_deref() == Some("deep-history") {
+        let (depth, variant) = (d.get("depth")?.as_i128()? as usize, d.get("variant")?.as_i128()? as usize);
+        if let Some(w) = deep_history_failure(depth, variant, hash) {
+            ctx.report.violate(format!("{}|deep-history|{}", if hash { "C07" } else { "C06" }, w), w, d.clone());
+        }
+        return Some(());
+    }
+    if jstr(d, "kind").as_deref() == Some("extreme-arity") {
+        // (re-run as a whole by the check itself)
+        return Some(());
+    }
     if jstr(d, "kind").as_deref() == Some("slot") {
         let seq: Vec<TD> = d.get("seq")?.as_arr()?.iter().filter_map(TD::from_json).collect();
         if let Some(w) = slot_reuse_failure(&seq, hash) {
